@@ -33,6 +33,8 @@ type Oblig struct {
 	tags    []string
 	clause  string
 	at      int // number of assertion lines that precede this obligation
+	crossAsked, crossAgree int
+	crossDisagree []string
 }
 
 type pathElem struct {
